@@ -278,7 +278,9 @@ fn sectors(d: &mut Dec, cx: &mut Cx) -> Res {
 /// shows at display scale.
 fn large_shapes(d: &mut Dec, cx: &mut Cx) -> Res {
     let kind = d.pick(&[1u32, 2, 3, 4, 7, 0]);
-    let mut s = gen::large_shape(d, kind, 100, 500);
+    // (one triangle in six up to 1024 px)
+    let hi = if kind == 4 && d.aux_u(7, 0, 5) == 5 { 1024 } else { 500 };
+    let mut s = gen::large_shape(d, kind, 100, hi);
     if let Shape::Triangle(t) = &mut s {
         // the statement covers triangles with non-zero area only
         let [a, b, c] = &mut t.vertices;
